@@ -3,15 +3,16 @@ import re
 PROP = {
     "go_test": "TestC15",
     "claimed": True,
-    "level_text": "Kernel-checked theorems (10, closed under the global context, SHA-256 an arbitrary function) about the Gallina transcription of the name keeper and its four message handlers, over ALL histories (fold_left step): an accepted bind found a record under the parent's key and, if it is restricted, the signer owns it; modify needs the governance authority or the owner of the record under the name's key; delete needs that owner; root creation needs the authority; every accepted message changes exactly the key of its own name and a rejected one nothing (C15_ownership); the by-address index holds exactly the records currently owned by each address (C15_index_agrees). The clause 'two different valid names never resolve to the same record' is REFUTED in Coq (C15_distinct_names_distinct_keys_refuted: aa.bbcc / ccaa.bb have one key for every hash; C15_collision_confers_authority_refuted) and reproduced on the real keeper by every run (known finding name-key-preimage-collision); what does hold is proved instead: lookups are exact up to key equality (C15_lookup_exact_unless_keys_collide, C15_lookups_agree_up_to_key) keys are injective on names with equal segment-length profile, and Normalize is idempotent (stored names are valid). Each run drives ~160 (quick) / ~3,000 (thorough) histories of 30-45 messages through the real message router and compares, after every message, GetRecordByName, ResolvesTo and ReverseLookup for a universe of ~12 names x 4 addresses with the model inside Coq, evaluates the property's own checker on the implementation's observations, groups every name over {a,b,c} within the limits by the real GetNameKeyPrefix, and checks Normalize on ~600 / ~27,000 raw inputs.",
-    "level_note": "Trusted: Coq kernel + vm_compute; the hand transcription Name/Name.v (tied to the code only by the correspondence run, bounded by its generators); the Go harness' projection; ASCII names only (bytes >= 128 are outside the model); addresses are abstract ids (always well-formed bech32); every signer has an account and no attributes exist (DeleteName's PurgeAttribute call); store iteration order not modelled (listings compared sorted); the correspondence instantiates the hash with the identity. No axioms.",
+    "level_text": "Kernel-checked theorems (33, closed under the global context, SHA-256 an arbitrary function; where injectivity is needed it is a Section hypothesis) about the Gallina transcription of the name keeper, its five message handlers and InitGenesis. Over ALL histories of the four name messages under fixed limits (fold_left step): an accepted bind found a record under the parent's key and, if it is restricted, the signer owns it; modify needs the governance authority or the owner of the record under the name's key; delete needs that owner; root creation needs the authority; every accepted message changes exactly the key of its own name and a rejected one nothing (C15_ownership); the by-address index holds exactly the records currently owned by each address (C15_index_agrees). Over ALL histories of the FULL surface (name messages, MsgUpdateParams, genesis imports, any initial limits): the same under the limits in force (C15_ownership_under_params_in_force, C15_index_agrees_full, C15_lookups_agree_up_to_key_full, C15_lookup_full), params change only by the authority and change nothing else, allow_unrestricted_names is dead, the bind check is the check on the DIRECT PARENT OF THE RESULTING NAME (C15_bind_checks_direct_parent, injective hash), the paged ReverseLookup (transcribed FilteredPaginate, next-key and offset clients, any limit >= 1) returns every bound name exactly once (C15_paged_reverse_lookup_complete) and the length-prefixed index prefix keeps prefix-related addresses apart (C15_address_prefix_unambiguous); what InitGenesis accepts (C15_genesis_import_spec / _rejects_duplicates / _rejects_invalid_names / _accepts_orphans). Normalisation: C15_normalize_idempotent, C15_valid_iff (validity = the documented rule, by cases), C15_unicode_model_conservative. The clause 'two different valid names never resolve to the same record' is REFUTED (C15_distinct_names_distinct_keys_refuted: aa.bbcc / ccaa.bb have one key for every hash; C15_collision_confers_authority_refuted; known finding name-key-preimage-collision, reproduced by every run) and replaced by the exact characterisation: for an injective hash keys are equal iff the reversed separator-less concatenations are equal (C15_keys_equal_iff_preimage_equal, C15_valid_names_collide_iff_reversed_concatenations_equal) and resolution is ambiguous only inside such a class (C15_ambiguity_only_inside_preimage_class, C15_lookup_exact_when_class_is_singleton). Each run drives ~170 (quick) / ~3,000 (thorough) histories of 30-45 steps through ValidateBasic + the real message router (and Keeper.InitGenesis) and compares, after every step, GetRecordByName, ResolvesTo, ReverseLookup, the Resolve query and the Params query for a universe of ~15 names x 6 addresses with the model inside Coq, evaluates the property's own checker on the implementation's observations (bind judged on the resulting name's direct parent), walks ReverseLookup page by page (keys / offsets, forward / reverse), spells addresses in upper-case bech32, round-trips ExportGenesis/InitGenesis, enumerates every name over {a,b,1,2} with 1-4 segments (322,000 names quick) by the real GetNameKeyPrefix against the pre-image classes, and checks Normalize on ~900 ASCII and ~300 non-ASCII raw inputs.",
+    "level_note": "Trusted: Coq kernel + vm_compute; the hand transcriptions Name/Name.v, NameMsgs.v, NamePaging.v, NameUnicode.v (tied to the code only by the correspondence run, bounded by its generators); the Go harness' projection; the history model is ASCII (the UTF-8 model covers Normalize only, on a tabulated part of Unicode, proved conservative over the ASCII one); addresses are abstract ids in the history model (always well-formed bech32; the byte layout of the index prefix is a separate theorem); every signer has an account and no attributes exist (DeleteName's PurgeAttribute call); store iteration order not modelled (listings compared sorted, page SIZES compared); reverse paging only through the property checker; the correspondence instantiates the hash with the identity. No axioms.",
     "technique": "Coq proof over all histories of a Gallina model of the name keeper (hash abstract) + differential correspondence evaluated in Coq",
-    "coq_files": ["Name/Name.v", "Proofs/NameProofs.v", "Corr/CorrBase.v", "Corr/C15.v"],
-    "rule": "histories over a random name tree (2 roots, 2-3 children each, 0-2 grandchildren, segments of 2-4 characters from abcde12 and an occasional dash; 1 history in 8 over a universe built around a colliding pair u.vw / wu.v; 1 in 5 under tightened length/level limits), 62% of the messages chosen to be acceptable from the keeper's current state (owner binds/modifies/deletes, authority creates roots) and the rest by strangers, on bound/unbound names, with capitals/padding/short/dotted segments; a history is non-trivial when at least 8 messages of at least 3 kinds were accepted; distinct = distinct (universe, message list). Pair cases are non-trivial when the two names share the real store key; normalize cases when the accepted result differs from the input.",
-    "assumptions": ["names are ASCII byte strings; Go's TrimSpace/ToLower/IsLower/IsDigit as transcribed in Name/Name.v header",
-                    "SHA-256 is a function (nothing else); the model run used for correspondence keys records by pre-image",
+    "coq_files": ["Name/Name.v", "Name/NameMsgs.v", "Name/NamePaging.v", "Name/NameUnicode.v", "Proofs/NameProofs.v", "Proofs/NameValidProofs.v", "Proofs/NamePagingProofs.v", "Proofs/NameMsgsProofs.v", "Proofs/NameHistoryProofs.v", "Proofs/NameGenesisProofs.v", "Proofs/NameAuthorityProofs.v", "Proofs/NameUnicodeProofs.v", "Corr/CorrBase.v", "Corr/C15.v"],
+    "rule": "histories over a random parent-closed name tree (2 roots, 2-3 children each, 0-2 grandchildren, some great-grandchildren; segments of 2-4 characters from abcde12 and an occasional dash; 1 history in 8 over a universe built around a colliding pair u.vw / wu.v; 1 in 5 starting under tightened length/level limits; 1 in 6 starting with a genesis import; 1 in 6 with the dotted-record-name prelude), 66% of the steps chosen to be acceptable from the keeper's current state and limits (owner binds/modifies/deletes, authority creates roots and updates params, imports of unbound valid names) and the rest by strangers, on bound/unbound names, with capitals/padding/short/dotted record names (two-level record names under the grand parent whose implied parent exists / is missing / is restricted and foreign), duplicate and invalid genesis bindings, nonsensical limits, upper-case bech32 spellings; a history is non-trivial when at least 8 steps of at least 3 kinds were accepted; distinct = distinct (universe, step list). Pair cases are non-trivial when the two names share the real store key; normalize cases when the accepted result differs from the input; spelling cases when the address owns a name.",
+    "assumptions": ["history model: names are ASCII byte strings; Go's TrimSpace/ToLower/IsLower/IsDigit as transcribed in Name/Name.v header; beyond ASCII only Keeper.Normalize is modelled (Name/NameUnicode.v, tables generated from Go's unicode package for the listed ranges)",
+                    "SHA-256 is a function (nothing else; injective where a theorem says so); the model run used for correspondence keys records by pre-image",
                     "every message signer has an account and the deleted name carries no attributes (PurgeAttribute succeeds)",
-                    "genesis names (attribute module's account-data name) are outside every universe (checked by the harness per universe)"],
+                    "genesis names (attribute module's account-data name) are outside every universe (checked by the harness per universe)",
+                    "FilteredPaginate as transcribed in Name/NamePaging.v: forward iteration, limit >= 1, next keys used without intervening writes"],
 }
 
 _COLLISION_TAGS = {"prop:lookup_returns_other_name", "prop:resolve_and_reverse_lookup_disagree", "prop:other_name_changed"}
